@@ -478,6 +478,23 @@ def check(ctx):
         for x in subterms(seeds))
     ctx.ob("C10.R6", build, "the engine key is split into one key per chain", ok_seed,
            detail=short(seeds or ()))
+    einit_ = method(repo, repo.cls("liesel.goose.engine.Engine"), "__init__")
+    rei_ = evaluate(repo, einit_)
+    ini_calls = [t for t, _, _ in rei_.calls if t[0] == "call" and t[1][0] == "call"
+                 and is_call(t[1], "jax.vmap") and t[1][2]
+                 and t[1][2][0] in (("a", ("a", n("self"), "_kernel_sequence"), "init_states"),
+                                    ("a", n("kernel_sequence"), "init_states"))]
+    ok_ik = False
+    if len(ini_calls) == 1 and len(ini_calls[0][2]) == 2:
+        k_, ms_ = ini_calls[0][2]
+        ok_ik = (k_[0] in ("fresh", "call") and "_split_prng_key" in pretty(k_)
+                 and not any(x == n("seeds") for x in subterms(k_))
+                 and ms_ in (("a", n("self"), "_model_states"), n("model_states")))
+    ctx.ob("C10.R5", einit_, "the kernels are initialised, chain by chain, with keys split off "
+                             "the engine's key stream (not with the chains' seeds themselves, "
+                             "which later keys are split from)", ok_ik,
+           detail=short(ini_calls[0], 120) if ini_calls else "no init_states call",
+           stmt="kernel init keys")
     # build() reads the builder and never writes it back: a second engine built from the
     # same builder starts from the same initial states, keys and kernels
     SELF_ = n("self")
